@@ -328,6 +328,70 @@ let reg_case toks impl =
 let opt_key = function Some k -> tok_of_key k | None -> "-"
 (* contexts persist per session id within a case: Y/Z start a fresh context, y/z re-enter with the kept one,
    n<sid> / m<sid> clear the address fields (what the protocol code does after a refused reservation) *)
+(* resn: the same ops with no registry at all (GetGlobalRegistry() == nil, nil *Registry receivers) *)
+let resn_case toks impl =
+  let (_, r) = parse_profiles toks in
+  let ops = match r with ";" :: o -> o | _ -> failwith "resn: no ;" in
+  let c4 : (string, sctx4) Hashtbl.t = Hashtbl.create 8 and c6 : (string, sctx6) Hashtbl.t = Hashtbl.create 8 in
+  let run4 sid (cx : sctx4) it =
+    let obs = match it with Some t when String.length t > 1 && t.[0] = 'r' && cx.c4_addr = None -> Some ((N0, N0), OA (V4, N0)) | _ -> None in
+    match resolve4_ctx_opt variant None (n_of_str sid) cx obs None with
+    | Some ((_, cx'), r) -> Hashtbl.replace c4 sid cx';
+      (match r with R4Nil -> "nil" | R4 (a, pool) -> "r" ^ tok_of_addr a ^ "@" ^ opt_key pool)
+    | None -> raise (Stop "INADMISSIBLE:an-address-from-no-registry") in
+  let run6 sid (cx : sctx6) it =
+    let fields = match it with
+      | Some t -> List.filter_map (fun f -> match String.index_opt f '=' with
+          | Some i -> Some (String.sub f 0 i, String.sub f (i+1) (String.length f - i - 1)) | None -> None) (split_on ';' t)
+      | None -> [] in
+    let fld n = try List.assoc n fields with Not_found -> "-" in
+    let dummy = Some ((N0, N0), OA (V6, N0)) in
+    let obsna = if cx.c6_na = None && fld "na" <> "-" then dummy else None in
+    let obspd = if cx.c6_pd = None && fld "pd" <> "-" then dummy else None in
+    match resolve6_ctx_opt variant None (n_of_str sid) cx obsna obspd None None with
+    | Some ((_, cx'), r) -> Hashtbl.replace c6 sid cx';
+      Printf.sprintf "%s;na=%s;napool=%s;pd=%s;pdpool=%s;rna=%s;rpd=%s" (if r.r6_nil then "nil" else "ok")
+        (match cx'.c6_na with Some a -> tok_of_addr a | None -> "-") (opt_key cx'.c6_napool)
+        (match r.r6_pd with Some o -> show_gobs o | None -> "-") (opt_key cx'.c6_pdpool)
+        (if r.r6_nil then "-" else opt_key r.r6_napool) (if r.r6_nil then "-" else opt_key r.r6_pdpool)
+    | None -> raise (Stop "INADMISSIBLE:an-address-or-prefix-from-no-registry") in
+  run_ops ops impl (fun op it ->
+    match op.[0] with
+    | 'Y' ->
+      (match split_on ',' (rest op) with
+       | [s; pf; ov; vrf; have] ->
+         let have = if have = "-" then None else Some (unmap (addr_exn have)) in
+         run4 s { c4_pf = n_of_str pf; c4_ov = n_of_str ov; c4_vrf = n_of_str vrf; c4_addr = have; c4_pool = None } it
+       | _ -> failwith "Y")
+    | 'y' -> (match Hashtbl.find_opt c4 (rest op) with Some cx -> run4 (rest op) cx it | None -> "noctx")
+    | 'n' -> (match Hashtbl.find_opt c4 (rest op) with
+        | Some cx -> Hashtbl.replace c4 (rest op) { cx with c4_addr = None }; "ok" | None -> "noctx")
+    | 'Z' ->
+      (match split_on ',' (rest op) with
+       | [s; pf; naov; pdov; vrf; hna; hpd] ->
+         let hna = if hna = "-" then None else Some (unmap (addr_exn hna)) in
+         let hpd = if hpd = "-" then None else Some (pfx_of_tok hpd) in
+         run6 s { c6_pf = n_of_str pf; c6_naov = n_of_str naov; c6_pdov = n_of_str pdov; c6_vrf = n_of_str vrf;
+                  c6_na = hna; c6_pd = hpd; c6_napool = None; c6_pdpool = None } it
+       | _ -> failwith "Z")
+    | 'z' -> (match Hashtbl.find_opt c6 (rest op) with Some cx -> run6 (rest op) cx it | None -> "noctx")
+    | 'm' -> (match Hashtbl.find_opt c6 (rest op) with
+        | Some cx -> Hashtbl.replace c6 (rest op) { cx with c6_na = None; c6_pd = None }; "ok" | None -> "noctx")
+    | _ ->
+      (* A / L / I on a nil *Registry *)
+      let fam = fam_of_char op.[1] in
+      let q = split_on ',' (String.sub op 2 (String.length op - 2)) in
+      let k = match op.[0], q with
+        | 'A', [s; pf; ov; vrf] ->
+          let obs = match it with Some "x" -> None | _ -> Some ((N0, N0), OA (V4, N0)) in
+          RAlloc (fam, n_of_str pf, n_of_str ov, n_of_str vrf, n_of_str s, obs)
+        | 'L', [k; a] -> RRelease (fam, key_of_tok k, arg_of fam a)
+        | 'I', [a] -> RReleaseByValue (fam, arg_of fam a, None)
+        | _ -> failwith ("resn op " ^ op) in
+      (match reg_step_opt variant None k with
+       | Some (_, o) -> show_rout o
+       | None -> raise (Stop "INADMISSIBLE:an-answer-from-a-nil-registry")))
+
 let res_case toks impl =
   let (specs, r) = parse_profiles toks in
   let ops = match r with ";" :: o -> o | _ -> failwith "res: no ;" in
@@ -420,6 +484,7 @@ let () =
            | "xreg" :: r -> String.concat " " (reg_case r it)
            | "reg" :: r -> String.concat " " (reg_case r it)
            | "res" :: r -> String.concat " " (res_case r it)
+           | "resn" :: r -> String.concat " " (resn_case r it)
            | _ -> "badline")
         with Failure m -> "MODEL-DRIVER-ERROR " ^ m | Stop m -> m | Not_found -> "MODEL-DRIVER-ERROR notfound"
            | Invalid_argument m -> "MODEL-DRIVER-ERROR " ^ m in
